@@ -25,6 +25,7 @@
 #include <set>
 #include <string>
 #include <string_view>
+#include <utility>
 #include <vector>
 
 namespace m6 {
@@ -214,7 +215,7 @@ inline Parsed classify(std::string_view cand) {
       // legacy form: name | tag | tag [| number] - every field is one tag, a trailing numeric field is ignored
       p.legacy = true;
       size_t last = n - 1;
-      if (f[last].empty()) return unspecified("legacy form with empty last field");  // faults upstream (known finding)
+      if (f[last].empty()) return unspecified("legacy form with empty last field");  // must not fault; valid or not is undocumented
       if (isDigitC(f[last][0])) {
         for (char ch : f[last]) if (!isDigitC(ch)) return unspecified("legacy trailing field starts with a digit but is not a number");
         --last;  // numeric legacy field ignored
@@ -314,9 +315,10 @@ inline Scan scan(const std::string& text) {
     }
     if (text.find("@{", j + 2) < o.bfinish) s.hasNested = true;
     if (o.p.kind == Kind::Unspecified) s.unspecified = true;
-    s.top.push_back(o);
-    if (!o.closed) break;
+    const bool closed = o.closed;
     i = o.bfinish;
+    s.top.push_back(std::move(o));
+    if (!closed) break;
   }
   for (auto& o : s.top) {
     if (o.closed && o.p.wellFormed()) {
